@@ -199,6 +199,9 @@ type Entity struct {
 	Events    []*Event        `json:"events"`
 	Commands  []*Service      `json:"commands,omitempty"`
 	Summaries []*TopicMessage `json:"summaries,omitempty"`
+	// Nested: objects / enums / oneofs declared inside the entity block; they become
+	// ordinary schemas of the package and are referenced from the entity's fields
+	Nested []*Decl `json:"nested,omitempty"`
 	// query settings
 	EventsInGet         bool     `json:"events_in_get,omitempty"`
 	DefaultStatusFilter []string `json:"default_status_filter,omitempty"`
